@@ -1,5 +1,5 @@
 // auto-generated: "lalrpop 0.23.1"
-// sha3: 0a77894c4679fded0c9a6b057c39a2f1281cca1c9f853fdf0ed7248718b12e20
+// sha3: 4f30e4437e5c54c503349a56bba74158a777d4f5469df4939f1dd4511fd1f965
 #[allow(unused_extern_crates)]
 extern crate lalrpop_util as __lalrpop_util;
 #[allow(unused_imports)]
@@ -641,7 +641,8 @@ fn __action1<
     (_, __0, _): (usize, &'input str, usize),
 ) -> String
 {
-    "=>r#{".to_string()
+    { /* } , ; */ let v = vec![(1, 2), (3, 4)]; // }
+ v[1].0.to_string() }
 }
 
 #[allow(unused_variables)]
@@ -653,7 +654,7 @@ fn __action2<
     (_, __0, _): (usize, &'input str, usize),
 ) -> String
 {
-    'é'.to_string()
+    "".to_string()
 }
 
 #[allow(unused_variables)]
@@ -665,7 +666,7 @@ fn __action3<
     (_, __0, _): (usize, &'input str, usize),
 ) -> String
 {
-    { let (x, y) = ("\n".to_string(), "'a*/\"".to_string()); x + &y }
+    format!("{}{}", 'é'.to_string(), { fn f<'a>(x: &'a str) -> &'a str { x } f("q").to_string() })
 }
 
 #[allow(unused_variables)]
@@ -677,7 +678,7 @@ fn __action4<
     (_, __0, _): (usize, &'input str, usize),
 ) -> String
 {
-    "é*/[}\"".to_string()
+    r#""'}\"#.to_string()
 }
 
 #[allow(unused_variables)]
@@ -689,7 +690,7 @@ fn __action5<
     (_, __0, _): (usize, &'input str, usize),
 ) -> String
 {
-    "'}*/](\'".to_string()
+    r"}'".to_string()
 }
 
 #[allow(unused_variables)]
@@ -701,7 +702,7 @@ fn __action6<
     (_, __0, _): (usize, &'input str, usize),
 ) -> String
 {
-    r###"';"###.to_string()
+    "[ ,//,".to_string()
 }
 
 #[allow(unused_variables)]
@@ -713,7 +714,7 @@ fn __action7<
     (_, __0, _): (usize, &'input str, usize),
 ) -> String
 {
-    r"(;\".to_string()
+    match ({ let r = 7; let t = (r, 1); /* /* nested , */ ; */ (t.0 / t.1).to_string() }, [r"''{,'".to_string(), "{=>é//)".to_string()].concat()) { (a, b) => { let mut s = a; s.push_str(&b); s } }
 }
 
 #[allow(unused_variables)]
@@ -725,7 +726,8 @@ fn __action8<
     (_, __0, _): (usize, &'input str, usize),
 ) -> String
 {
-    r##"(("##.to_string()
+    { /* } , ; */ let v = vec![(1, 2), (3, 4)]; // }
+ v[1].0.to_string() }
 }
 
 #[allow(clippy::type_complexity, dead_code)]
